@@ -1,13 +1,16 @@
 /* generic contract of bloc::<X>Expression::type (C02) -- the compiled type of a builtin function call, instantiated
  * per builtin by BUILTIN_TYPE_FN (mangled name), BUILTIN_CLASS and one of
  *   BUILTIN_TYPE=<major>            the type is that scalar type whatever the arguments
+ *   BUILTIN_TYPE_SAME_AS_ARG1       the compiled type of the first argument (BUILTIN_ABS: decimal when that is complex)
+ *   BUILTIN_TYPE_ARITH2             integer when the compiled types of both arguments are integer, decimal otherwise
  *   BUILTIN_TYPE_FOLLOWS_COMPLEX    complex when the compiled type of the first argument is complex, decimal otherwise
  * This is the static half of the pair whose dynamic half is the C02 clause of contracts/builtin_generic.c. */
 #include "prelude.h"
 /* std::vector<Expression*>::operator[] const on the argument vector: the one child */
-struct Expression g_child; struct Expression *g_child_p;
+struct Expression g_child2[2]; struct Expression *g_child_p2[2];
+#define g_child (g_child2[0])
 struct Expression *const *_ZNKSt6vectorIPN4bloc10ExpressionESaIS2_EEixEm(const void *this, unsigned long n)
-{ (void)this; __CPROVER_assert(n == 0, "type() consults the first argument only"); g_child_p = &g_child; return &g_child_p; }
+{ (void)this; __CPROVER_assert(n < 2, "type() consults the first two arguments at most"); g_child_p2[n] = &g_child2[n]; return &g_child_p2[n]; }
 /* bool Type::operator==(TypeMajor) and friends are rendered from the repository */
 
 const struct Type *BUILTIN_TYPE_FN(struct BUILTIN_CLASS *this, struct Context *ctx)
@@ -17,6 +20,23 @@ __CPROVER_assigns(g_type_n, __CPROVER_object_whole(g_stype), __CPROVER_object_wh
 PROP(C01, C02) __CPROVER_ensures(__exc == 0 && RET != 0)
 #ifdef BUILTIN_TYPE
 PROP(C02) __CPROVER_ensures(RET->_level == 0 && RET->_major == BUILTIN_TYPE && RET->_minor == 0)
+#endif
+#ifdef BUILTIN_TYPE_SAME_AS_ARG1
+/* the compiled type of the first argument itself (abs: decimal for a complex) */
+PROP(C02) __CPROVER_ensures(g_type_n == 1 && g_type_node[0] == &g_child)
+#ifdef BUILTIN_ABS
+PROP(C02) __CPROVER_ensures(ST1->_major == IMAGINARY ? (RET->_major == NUMERIC && RET->_level == 0) : RET == ST1)
+#else
+PROP(C02) __CPROVER_ensures(RET == ST1)
+#endif
+#endif
+#ifdef BUILTIN_TYPE_ARITH2
+PROP(C02) __CPROVER_ensures(g_type_n == 2 && g_type_node[0] == &g_child2[0] && g_type_node[1] == &g_child2[1])
+PROP(C02) __CPROVER_ensures(RET->_level == 0 && RET->_minor == 0 && RET->_major == ((ST1->_major == INTEGER && ST2->_major == INTEGER) ? INTEGER : NUMERIC))
+#endif
+#ifdef BUILTIN_TYPE_POW
+PROP(C02) __CPROVER_ensures(g_type_n == 2 && g_type_node[0] == &g_child2[0] && g_type_node[1] == &g_child2[1])
+PROP(C02) __CPROVER_ensures(RET->_level == 0 && RET->_minor == 0 && RET->_major == ((ST1->_major == IMAGINARY || ST2->_major == IMAGINARY) ? IMAGINARY : (ST1->_major == INTEGER && ST2->_major == INTEGER) ? INTEGER : NUMERIC))
 #endif
 #ifdef BUILTIN_TYPE_FOLLOWS_COMPLEX
 PROP(C02) __CPROVER_ensures(g_type_n == 1 && g_type_node[0] == &g_child)
